@@ -103,7 +103,7 @@ def no_panic(obs, case):
 
 def after_end_absorbing(obs, case):
     """C12 on the implementation's own trace: per runner, after END every next is END with no effects, until a restore."""
-    ops = re.findall(r"\((next|snap|resnap|mutsnap|restorenil|restorebad|restore|hset|complete|new) (\d+)", case.split("(ops", 1)[-1])
+    ops = re.findall(r"\((next|snap|resnap|mutsnap|restorenil|restorebad|restore|hset|hrev|addcmd|complete|new) (\d+)", case.split("(ops", 1)[-1])
     ended = {}
     for i, (op, j) in enumerate(ops):
         if i + 1 >= len(obs):
@@ -123,7 +123,7 @@ def after_end_absorbing(obs, case):
                 ended[j] = d["v"]
         elif op in ("restore", "restorenil", "new") and d["res"].startswith(("RESTORE OK", "NEW")):
             ended.pop(j, None)
-        elif op == "hset" and j in ended:
+        elif op in ("hset", "hrev") and j in ended:
             ended[j] = d["v"]
     return None
 
@@ -238,7 +238,7 @@ def numeric_contracts(obs, case):
 
 def snapshots_immutable(obs, case):
     """C07 on the implementation's own trace: every re-observation of a snapshot equals what it showed when taken"""
-    ops = re.findall(r"\((next|snap|resnap|mutsnap|restorenil|restorebad|restore|hset|complete|new) (\d+)", case.split("(ops", 1)[-1])
+    ops = re.findall(r"\((next|snap|resnap|mutsnap|restorenil|restorebad|restore|hset|hrev|addcmd|complete|new) (\d+)", case.split("(ops", 1)[-1])
     snaps = []
     for i, (op, j) in enumerate(ops):
         if i + 1 >= len(obs):
